@@ -430,6 +430,81 @@ def witness_lines(init: list[str], threads: list[list[tuple]], order: list[tuple
     return lines, want
 
 
+def adversarial_app_ids(ctx: Ctx) -> None:
+    """the SQLite broker of applications whose id resembles SQLite's own names (the catalogue is queried by NAME with LIKE): the same
+    fixed script against the FIFO list"""
+    script: list = [("route", "a"), ("route", "b"), ("many", ["c", "d"]), ("retrieve",), ("count",), ("purge",), ("count",), ("retrieve",), ("route", "e"),
+                    ("many", ["f", "g"]), ("retrieve",), ("count",), ("purge",), ("retrieve",), ("count",)]
+    for app_id in ["sqlite3", "SQLiteDemo", "sqlitedb.v2", "sqlite", "SQLITE_X", "x_sqlite_y", "sqlite%", "sqlite_", "Sqlite-queue", "c08 plain"]:
+        app = make_app("sqlite", ctx.tmp, app_id=app_id, db=f"{ctx.tmp}/c08adv{abs(hash(app_id)) % 10**8}.db")
+        q: list = []
+        for k, op in enumerate(script):
+            got = apply(app.broker, op)
+            if op[0] == "route":
+                q.append(op[1]); want = "ok"
+            elif op[0] == "many":
+                q += list(op[1]); want = "ok"
+            elif op[0] == "retrieve":
+                want = tok(q.pop(0)) if q else tok(None)
+            elif op[0] == "count":
+                want = str(len(q))
+            else:
+                q = []; want = "ok"
+            ctx.count()
+            if got != want:
+                ctx.report("sqlite:broker-differs-from-queue:app-id", f"[sqlite] application id {app_id!r}: operation #{k} {op} answered {got!r}, the FIFO queue says {want!r} "
+                                                                        f"(script {script[: k + 1]})", {"kind": "app-id", "app_id": app_id, "upto": k})
+                break
+        ctx.distinct(("adversarial-app-id", app_id))
+
+
+class ConcMem(Conc):
+    """the in-memory broker shared by several threads of one process (two thread runners, a runner and the monitor), every source
+    line of the broker a yield point"""
+
+    def __init__(self, ctx_tmp: str, app_id: str, nthreads: int):
+        from pynenc.broker.mem_broker import MemBroker
+        from harness.sched_line import LineSched
+
+        self.app = make_app("mem", ctx_tmp, app_id=app_id)
+        self.main = self.app.broker
+        self.brokers = [self.main] * nthreads
+        self.sched = LineSched(line_targets=[MemBroker])
+
+
+def concurrent_mem(ctx: Ctx) -> None:
+    """exactly-once / FIFO under concurrent retrievers and routers of the IN-MEMORY broker: every interleaving of its source lines up
+    to a pre-emption bound; judged by conservation and by the existence of a sequential FIFO order"""
+    scen = [
+        ("two-retrievers", ["m1", "m2", "m3", "m4"], [[("retrieve",)], [("retrieve",)]]),
+        ("retrievers-and-router", ["m1", "m2"], [[("retrieve",), ("retrieve",)], [("route", "n1"), ("retrieve",)]]),
+        ("retrieve-vs-batch", ["m1"], [[("retrieve",), ("retrieve",)], [("many", ["n1", "n2"])]]),
+        ("count-vs-retrieve", ["m1", "m2", "m3"], [[("count",), ("retrieve",)], [("retrieve",), ("count",)]]),
+    ]
+    c = ConcMem(ctx.tmp, "c08cm", 2)
+    c.sched.install()
+    n = 0
+    try:
+        for name, init, programs in scen:
+            for run in explore(lambda ch: _run_keep(c, init, programs, ch), 2 if ctx.quick else 3, 150 if ctx.quick else 1500):
+                hist, remaining = run._c08  # type: ignore[attr-defined]
+                n += 1
+                ctx.count()
+                ctx.distinct(("conc-mem", name, tuple(run.choices)))
+                replay = {"kind": "concurrent-mem", "scenario": name, "init": init, "programs": [[list(o) for o in p] for p in programs], "schedule": run.choices,
+                          "history": [[t, list(o), r, a, b] for t, o, r, a, b in hist], "remaining": remaining}
+                v = judge_history(init, programs, run, hist, remaining)
+                if v:
+                    ctx.report(f"mem-concurrent:{v[0]}", f"[mem, 2 threads, scenario {name}] {v[1]}; schedule {run.choices}", replay)
+                    continue
+                if linearize(init, expand(hist), remaining) is None:
+                    ctx.report("mem-concurrent:not-linearizable", f"[mem, 2 threads, scenario {name}] no sequential FIFO order explains the results "
+                                                                  f"{[(t, o, r) for t, o, r, _, _ in hist]} + remaining {remaining}; schedule {run.choices}", replay)
+    finally:
+        c.sched.uninstall()
+    ctx.notes["concurrent_mem_schedules"] = n
+
+
 def concurrent_part(ctx: Ctx, drv: LeanDriver) -> None:
     bound = 2 if ctx.quick else 3
     wl: list[str] = []
@@ -687,6 +762,8 @@ def run(ctx: Ctx) -> None:
         big_batches(ctx)
         interrupted_operations(ctx)
         concurrent_part(ctx, drv)
+        concurrent_mem(ctx)
+        adversarial_app_ids(ctx)
         ctx.sample({"kind": "concurrent", "scenario": SCENARIOS_2[0][0], "init": SCENARIOS_2[0][1], "programs": SCENARIOS_2[0][2]})
     finally:
         drv.close()
